@@ -52,12 +52,13 @@ theorem v2_exact (ad : Bool) (ops : List (Op2 M O)) (hidle : ((V2.init M O ad).r
 
 /-- (up to the subscriber's death) With the public configuration (duplicates allowed) a
 subscription leaves the `subscribers` vector only because its actor had exited, and exactly
-at the first publication its converter maps to `Some` that could not be sent: what it
-received is the image of everything before that publication. -/
+at a publication `m` it was offered after that (since the round-4 fix: whether its converter
+maps `m` to `Some` — the send fails — or to `None`): what it received is the image of
+everything before that publication. -/
 theorem v2_removed_only_dead (ops : List (Op2 M O)) :
     ∀ s ∈ ((V2.init M O true).run ops).gone,
       s.actor ∈ ((V2.init M O true).run ops).dead ∧
-      ∃ m tl o, ((V2.init M O true).run ops).after s = s.offered ++ m :: tl ∧ s.conv m = some o ∧
+      ∃ m tl, ((V2.init M O true).run ops).after s = s.offered ++ m :: tl ∧
         s.got = s.offered.filterMap s.conv :=
   (inv_run ops (inv_init true)).removed (run_allowDup _ _)
 
@@ -70,6 +71,19 @@ theorem v2_hist (ad : Bool) (ops : List (Op2 M O)) :
         | .subscribe _ _ => some none
         | _ => none :=
   hist_run ad ops
+
+/-- (a stopped subscriber IS dropped) The port task offering ANY publication to a subscription
+whose actor has stopped removes it in that very step — whatever its converter says about the
+message — and moves on to the next subscriber with the whole segment. Together with
+`v2_dead_dropped`: a subscription gets at most one converter call after its subscriber stopped.
+(Before the round-4 `fix:` this failed for `None`-mapped publications: witness
+`corpus/C16/e-lts-v2-stopped-none.ops`.) -/
+theorem v2_stopped_dropped (st : V2 M O) (srv todo : List (Sub M O)) (s : Sub M O) (seg left : List M)
+    (m : M) (rest : List (Cmd M O)) (hpc : st.pc = .disp srv (s :: todo) seg (m :: left) rest)
+    (hd : s.actor ∈ st.dead) :
+    st.task.2 = some ⟨s.key, m, false⟩ ∧ st.task.1.gone = st.gone ++ [s] ∧
+      st.task.1.pc = .disp srv todo seg seg rest := by
+  cases hc : s.conv m <;> simp [V2.task, hpc, hc, hd]
 
 /-- (frame) A port-task step that calls subscription `c.key`'s converter leaves every other
 subscription untouched — also when that step removes a dead subscriber. -/
@@ -165,14 +179,14 @@ theorem v1_subseq (cap : Nat) (ops : List (Op1 M O)) :
 /-- (exact accounting) The cursor only moves forward, one mask entry per ring position
 passed; the messages handed to the converter are exactly the publications after the
 subscription point whose entry is a read, in order; everything read was cast to the
-subscriber except, when the task has ended, the single last message, which was rejected by
-a subscriber that had exited. -/
+subscriber except, when the task has ended, the single last message, which was read after
+the subscriber had exited (rejected or, since the round-4 fix, skipped — either ends the task). -/
 theorem v1_account (cap : Nat) (ops : List (Op1 M O)) :
     ∀ f ∈ ((V1.init M O cap).run ops).fwds,
       f.start + f.mask.length = f.cursor ∧
       f.readMsgs = pick f.mask (((V1.init M O cap).run ops).after f) ∧
       (f.ended = false → f.got = f.readMsgs.filterMap f.conv) ∧
-      (f.ended = true → ∃ init m o, f.readMsgs = init ++ [m] ∧ f.conv m = some o ∧
+      (f.ended = true → ∃ init m, f.readMsgs = init ++ [m] ∧
           f.actor ∈ ((V1.init M O cap).run ops).dead ∧ f.got = init.filterMap f.conv) := by
   intro f hf
   have h := inv1_run ops (inv1_init cap) f hf
@@ -225,6 +239,17 @@ never calls the converter again and its subscription record never changes. -/
 theorem v1_dead_dropped (cap : Nat) (log : List M) (dead : List Nat) (f : Fwd M O) (h : f.ended = true) :
     f.step cap log dead = (f, none) := by
   simp [Fwd.step, h]
+
+/-- (a stopped subscriber IS dropped, v1) The first publication a live forwarding task reads
+after its subscriber has stopped ends the task (and with it the broadcast receiver), whatever
+the converter says about it. (Before the round-4 `fix:` a `None`-mapped publication left the
+task and its receiver alive for ever: witness `corpus/C16/e-lts-v1-stopped-none.ops`.) -/
+theorem v1_stopped_dropped (cap : Nat) (log : List M) (dead : List Nat) (f : Fwd M O) (m : M)
+    (he : f.ended = false) (hnolag : ¬ f.cursor + cap < log.length) (hm : log[f.cursor]? = some m)
+    (hd : f.actor ∈ dead) :
+    (f.step cap log dead).1.ended = true ∧ (f.step cap log dead).2 = some ⟨f.key, m, false⟩ ∧
+      (f.step cap log dead).1.got = f.got := by
+  cases hc : f.conv m <;> simp [Fwd.step, he, hnolag, hm, hc, hd]
 
 /-- (`send` never blocks) Publishing never depends on any subscriber or forwarding task
 beyond the receiver count: it appends to the ring (overwriting the oldest slot) or, with no
@@ -456,6 +481,8 @@ example : demo1c.base.fwds.map (fun f => (f.got, f.ended)) = [([2, 3, 4, 5], fal
 #print axioms C16.v1_frame
 #print axioms C16.v1_publish_nonblocking
 #print axioms C16.v1_ok
+#print axioms C16.v2_stopped_dropped
+#print axioms C16.v1_stopped_dropped
 #print axioms C16.v2_drop_simulation
 #print axioms C16.v2_drop_prefix
 #print axioms C16.v2_drop_delivers_all
